@@ -147,9 +147,6 @@ type LibGen struct {
 	prop   string
 	// always Sync right after Create (a never-synced file has an all-zero header on disk)
 	alwaysSync bool
-	// the file was re-created in place over an older one: what the old file held inside the
-	// new size is still there, so the archives no longer hold only what whispertool wrote
-	recreated bool
 }
 
 var xffChoices = []float32{0, 0, 0.5, 1, 0.2, 0.25, 0.3333333, 0.34, 0.1, 0.99, 1e-9, 0.6, 0.3, 0.7, 0.4, 0.9}
@@ -245,6 +242,35 @@ func (g *LibGen) genBatch() string {
 		pts = append(pts, g.genPoint())
 	}
 	return strings.Join(pts, ",")
+}
+
+// genRecreateCase (C05, C06): a file created, synced and abandoned, then created again in place
+// with an open flag that allows an existing file (no O_EXCL, no O_TRUNC) and another layout —
+// shorter or longer, with at least as many archives, so that the old header lies inside the
+// new one and the new archives start out clean.  The file has its new length at once; after
+// Sync the header is the new one; updates and reads then behave as on any fresh file.
+func genRecreateCase(r *Rng, prop string) []Op {
+	g := newLibGen(r, prop, false)
+	old := g.lay
+	ops := []Op{{"reset", false}, {g.createLine(), true}, {"sync", true}, {"drop", false}}
+	nl := genLayout(r, false)
+	for nl.K() < old.K() || nl.FileSize() > 60000 {
+		nl = genLayout(r, false)
+	}
+	g.lay = nl
+	hs := nl.HdrSize()
+	ops = append(ops, Op{fmt.Sprintf("createover %s %d %08x", nl, g.agg, g.xff), true},
+		Op{fmt.Sprintf("disk %d", hs), true}, Op{"header", true}, Op{"sync", true},
+		Op{fmt.Sprintf("disk %d", hs), true}, Op{"drop", false}, Op{"open", true}, Op{"header", true})
+	rest := g.History(3 + r.Intn(4))
+	// the history starts with its own reset and create: keep what follows them
+	for i, o := range rest {
+		if strings.HasPrefix(o.Line, "create ") {
+			rest = rest[i+1:]
+			break
+		}
+	}
+	return append(ops, rest...)
 }
 
 // genHugeBatch (C05): more than 4096 slots of one archive written by one call, the handle
@@ -459,21 +485,6 @@ func (g *LibGen) History(nSteps int) []Op {
 		case c < 18:
 			ops = append(ops, Op{"sync", sDisk}, Op{"open", true})
 		case c < 19:
-			if g.r.Chance(1, 4) {
-				// Create again in place, with an open flag that allows an existing file: the file
-				// takes the length of the new layout at once (shorter or longer than before)
-				nl := genLayout(g.r, false)
-				for nl.FileSize() > 60000 {
-					nl = genLayout(g.r, false)
-				}
-				g.lay = nl
-				g.recreated = true
-				ops = append(ops, Op{"sync", sDisk}, Op{"drop", false},
-					Op{fmt.Sprintf("createover %s %d %08x", g.lay, g.agg, g.xff), true},
-					Op{fmt.Sprintf("disk %d", g.lay.HdrSize()), true}, Op{"header", true},
-					Op{"sync", sDisk}, Op{fmt.Sprintf("disk %d", g.lay.HdrSize()), true}, Op{"open", true}, Op{"header", true})
-				break
-			}
 			if g.r.Chance(1, 3) {
 				// Create on a path that exists is refused and leaves the file alone
 				ops = append(ops, Op{"sync", sDisk}, Op{"drop", false}, Op{g.createLine(), true},
